@@ -176,6 +176,20 @@ func (r *Replay) PendingSummary() string {
 	return sb.String()
 }
 
+// Unsynced reports, for one inode, how many chunk writes are still pending (not followed by an fsync of the
+// file) and whether the directory entry created for it is still pending (not followed by a directory fsync).
+func (r *Replay) Unsynced(ino int) (pendingChunks int, createPending bool, name string) {
+	if f := r.files[ino]; f != nil {
+		pendingChunks = len(f.pend)
+	}
+	for _, o := range r.dirPend {
+		if o.kind == OpCreate && o.ino == ino {
+			createPending, name = true, o.name
+		}
+	}
+	return
+}
+
 // PendingChunks is the number of pending chunk writes over all files.
 func (r *Replay) PendingChunks() int {
 	n := 0
@@ -713,6 +727,110 @@ func RunVariants(r *Replay, ops []Op) (models []*Replay, labels []string) {
 		labels = append(labels, "run:gone="+strings.Join(gone, ","))
 	}
 	return
+}
+
+// EnumerateWholeWrites calls fn for the crash images in which every pending pwrite has landed completely or not
+// at all (no tearing inside a write), for every subset of the pending pwrites (at most maxOps of them, else only
+// all / none / each one missing / each one alone), every subset of the pending directory operations and, per
+// file with a pending length change, the old and the new length.
+func (r *Replay) EnumerateWholeWrites(maxOps int, fn func(st *State, info ImageInfo) bool) (count int) {
+	opset := map[int]bool{}
+	for _, f := range r.files {
+		for _, w := range f.pend {
+			opset[w.op] = true
+		}
+	}
+	var ops []int
+	for o := range opset {
+		ops = append(ops, o)
+	}
+	sort.Ints(ops)
+	var subsets []map[int]bool
+	if len(ops) <= maxOps {
+		for m := 0; m < 1<<uint(len(ops)); m++ {
+			s := map[int]bool{}
+			for i, o := range ops {
+				if m&(1<<uint(i)) != 0 {
+					s[o] = true
+				}
+			}
+			subsets = append(subsets, s)
+		}
+	} else {
+		all, none := map[int]bool{}, map[int]bool{}
+		for _, o := range ops {
+			all[o] = true
+		}
+		subsets = append(subsets, none, all)
+		for _, o := range ops {
+			one := map[int]bool{o: true}
+			but := map[int]bool{}
+			for _, p := range ops {
+				if p != o {
+					but[p] = true
+				}
+			}
+			subsets = append(subsets, one, but)
+		}
+	}
+	nd := len(r.dirPend)
+	if nd > 10 {
+		nd = 10
+	}
+	seen := map[string]bool{}
+	for mask := uint64(0); mask < (1 << uint(nd)); mask++ {
+		dm := applyDirOps(r.dirDur, r.dirPend, mask)
+		names := make([]string, 0, len(dm))
+		for n := range dm {
+			names = append(names, n)
+		}
+		sort.Strings(names)
+		for si, sub := range subsets {
+			for lenNew := 0; lenNew < 2; lenNew++ {
+				st := NewState()
+				for _, n := range names {
+					f := r.files[dm[n]]
+					if f == nil {
+						st.Files[n] = nil
+						continue
+					}
+					L := len(f.dur)
+					if lenNew == 1 {
+						L = len(f.vol)
+					}
+					buf := make([]byte, L)
+					copy(buf, f.dur)
+					for _, w := range f.pend {
+						if !sub[w.op] {
+							continue
+						}
+						end := int(w.idx*8) + w.n
+						if end > len(buf) {
+							nb := make([]byte, end)
+							copy(nb, buf)
+							buf = nb
+						}
+						copy(buf[w.idx*8:], w.val[:w.n])
+					}
+					st.Files[n] = buf
+				}
+				st.Meta = r.meta
+				for k, v := range r.stable {
+					st.Stable[k] = v
+				}
+				h := st.Hash()
+				if seen[h] {
+					continue
+				}
+				seen[h] = true
+				count++
+				if !fn(st, ImageInfo{Landed: len(sub), Dropped: len(ops) - len(sub), Desc: fmt.Sprintf("dirmask=%b writes-landed=%d/%d(set %d) newlen=%d", mask, len(sub), len(ops), si, lenNew)}) {
+					return count
+				}
+			}
+		}
+	}
+	return count
 }
 
 // bigVars builds the per-file variables with every pending directory operation landed and names the file
